@@ -481,6 +481,30 @@ impl Ctx {
 		}
 	}
 
+	/// metadata produced by an unsizing coercion from pointee `sp` to pointee `dp`
+	fn unsize_meta(&mut self, sp: Ty, dp: Ty, m: &mut serde_json::Map<String, Value>) {
+		match (sp.kind(), dp.kind()) {
+			(TyKind::RigidTy(RigidTy::Array(_, n)), TyKind::RigidTy(RigidTy::Slice(_))) => {
+				m.insert("len".into(), json!(n.eval_target_usize().ok()));
+			}
+			(TyKind::RigidTy(RigidTy::Dynamic(..)), TyKind::RigidTy(RigidTy::Dynamic(..))) => {}
+			(_, TyKind::RigidTy(RigidTy::Dynamic(..))) => {
+				let tr = dp.kind().trait_principal();
+				let vid = self.vtable_id(sp, tr);
+				m.insert("vtable".into(), json!(vid));
+			}
+			(TyKind::RigidTy(RigidTy::Adt(d1, a1)), TyKind::RigidTy(RigidTy::Adt(d2, a2))) => {
+				// struct with an unsized tail: the metadata is that of the last field
+				let f1 = d1.variants_iter().next().and_then(|v| v.fields().last().map(|f| f.ty_with_args(&a1)));
+				let f2 = d2.variants_iter().next().and_then(|v| v.fields().last().map(|f| f.ty_with_args(&a2)));
+				if let (Some(t1), Some(t2)) = (f1, f2) {
+					self.unsize_meta(t1, t2, m);
+				}
+			}
+			_ => {}
+		}
+	}
+
 	fn rvalue(&mut self, rv: &Rvalue, body: &Body) -> Value {
 		let rty = rv.ty(body.locals()).ok().map(|t| self.ty_id(t));
 		let mut v = match rv {
@@ -545,21 +569,7 @@ impl Ctx {
 						PointerCoercion::Unsize => {
 							if let (Some(st), Some(dp)) = (src_ty, self.pointee(*ty)) {
 								if let Some(sp) = self.pointee(st) {
-									match dp.kind() {
-										TyKind::RigidTy(RigidTy::Dynamic(..)) => {
-											if !matches!(sp.kind(), TyKind::RigidTy(RigidTy::Dynamic(..))) {
-												let tr = dp.kind().trait_principal();
-												let vid = self.vtable_id(sp, tr);
-												m.insert("vtable".into(), json!(vid));
-											}
-										}
-										TyKind::RigidTy(RigidTy::Slice(_)) => {
-											if let TyKind::RigidTy(RigidTy::Array(_, n)) = sp.kind() {
-												m.insert("len".into(), json!(n.eval_target_usize().ok()));
-											}
-										}
-										_ => {}
-									}
+									self.unsize_meta(sp, dp, &mut m);
 								}
 							}
 							"unsize".to_string()
